@@ -90,4 +90,7 @@ def normAt (add sub div : α → α → α) (sqabs sqrt : α → α) (divn : α 
     (Reduce.foldFirst add none (G.map fun k => sqabs (sub (x k) (divn S G.length)))).map fun V =>
       div (sub (x i) (divn S G.length)) (sqrt (add (divn V G.length) eps))
 
+/-- `j` with the coordinate `k` inserted at position `ax` -/
+def insAt (j : Idx) (ax k : Nat) : Idx := j.take ax ++ k :: j.drop ax
+
 end NmVerif.NN
